@@ -110,6 +110,11 @@ def gen(rng, idx, tier):
         # at the neighbouring master - a limit of the format, not the statement's "one unit"
         if min_master_gap(ds) >= 0.04:
             break
+    if rng.random() < 0.2:
+        # a composite whose FIRST component keeps its 2x2 while a later one differs between
+        # masters (a variable font cannot vary a 2x2: the glyph has to be decomposed)
+        from vf.props.c09 import later_component_2x2
+        later_component_2x2(rng, ds)
     if rng.random() < 0.7:
         snap_axes_to_integers(ds)
     func = rng.choice(["compileVariableTTF", "compileVariableCFF2"])
